@@ -470,6 +470,15 @@ class Check:
         if self.exhaustive is not None:
             cov["exhaustive"] = self.exhaustive
         cov.update(self.extra)
+        try:
+            import access
+            if access.discovered:
+                cov["private_state_found_by_behaviour"] = dict(access.discovered)
+            ta = sys.modules.get("typeaccess")
+            if ta is not None and ta.used_behaviour:
+                cov["private_class_attributes_found_by_behaviour"] = dict(ta.used_behaviour)
+        except Exception:  # noqa
+            pass
         ev = {"property_id": self.pid, "tier": self.tier, "seed": self.base_seed, "level": level,
               "coverage": cov, "assumptions": self.assumptions, "wall_s": round(wall, 2),
               "violations": len(self.violations),
